@@ -650,6 +650,9 @@ class Frame:
 
     def load(self, place):
         root, proj = self.root_of(place)
+        if root not in self.store and not proj and isinstance(root, int) and ('*', root) in self.store:
+            # a by-reference parameter read as a value (moved / copied into another local): the reference itself
+            return Ref(('*', root), [])
         if root not in self.store:
             # promoted constants held in locals
             if isinstance(root, int) and 0 <= root < len(self.body.locals):
